@@ -1,6 +1,11 @@
 def cases(tier, hdr, path):
     out = []
+    # the same harness serves C06 and C07 (symlink). The select-give step belongs to C06 only: its known finding F6
+    # (a matched select that suspends) is a lost wake-up, not a spurious one.
+    is_c07 = "/C07/" in path
     for op, on in ((0, "give"), (1, "take"), (2, "close"), (3, "selgive")):
+        if op == 3 and is_c07:
+            continue
         for ni in (0, 1, 2):
             for nr in (0, 1, 2):
                 for nw in (0, 1, 2):
